@@ -99,6 +99,10 @@ def run_raw(c):
         status_in = Status()
         if s["via"] == "project":
             approx2, status = approx.project_mean_field(new, fa, delta=make_delta(d, variables), status=status_in)
+        elif s["via"] == "fa_project":
+            # the same update through FactorApproximation.project_mean_field + EPMeanField.project_factor_approx
+            projection, status = fa.project_mean_field(new, delta=make_delta(d, variables), status=status_in)
+            approx2, status = approx.project_factor_approx(projection, status)
         elif s["via"] == "project_default":
             approx2, status = approx.project_mean_field(new, fa)
         elif s["via"] == "simple":
